@@ -412,18 +412,20 @@ def execute(item, only=None):
                 rep("%s:advertised-min-wrong" % kind, "%s: %s = %r, smallest non-zero allowable pilot is %r" % (cfg, src, vals[src][0], want_min), vals[src][0], want_min, {"adv": True})
     # ---- plugging into an occupied station -------------------------------------------
     if only is None or only.get("plug"):
-        for via in ("evse", "network"):
+        for via, same_id in (("evse", False), ("network", False), ("evse", True), ("network", True)):
             evse = build(kind, p)
             net = ChargingNetwork()
             net.register_evse(evse, 208, 0)
             first = mk_ev()
-            second = EV(0, 9, 5.0, "PS-X", "sess-2", Battery(20.0, 1.0, 7.0))
+            first.charge(4.0, 208, 5)  # the occupant has a history that a replacement would lose
+            # the newcomer is another session - or another OBJECT carrying the occupant's session id
+            second = EV(0, 9, 5.0, "PS-X", "sess-1" if same_id else "sess-2", Battery(20.0, 1.0, 7.0))
             (evse.plugin if via == "evse" else net.plugin)(first)
             st0 = ev_state(first)
             stats["probes"] += 1
             try:
                 (evse.plugin if via == "evse" else net.plugin)(second)
-                rep("plugin:occupied-accepted:%s" % via, "%s: second plug-in accepted (occupant now %s)" % (cfg, getattr(evse.ev, "session_id", None)), getattr(evse.ev, "session_id", None), "StationOccupiedError", {"plug": True})
+                rep("plugin:occupied-accepted:%s%s" % (via, ":same-session-id" if same_id else ""), "%s: second plug-in accepted (occupant is %s the original object)" % (cfg, "still" if evse.ev is first else "no longer"), getattr(evse.ev, "session_id", None), "StationOccupiedError", {"plug": True})
             except StationOccupiedError:
                 if evse.ev is not first or ev_state(first) != st0 or net.get_ev("PS-X") is not first:
                     rep("plugin:occupant-replaced:%s" % via, "%s: refused plug-in replaced/altered the occupant (now %s)" % (cfg, getattr(evse.ev, "session_id", None)), getattr(evse.ev, "session_id", None), "sess-1", {"plug": True})
